@@ -43,7 +43,7 @@ var replBigLines = []string{`[range(3000)]`, `[range(2500)] | map(tostring)`, `"
 
 var replLines = []string{
 	`123`, `"abc"`, `[1,2,3] | length`, `range(12)`, `range(40) | tostring`, `[range(30)]`, `{a: 1, b: [2, 3]}`,
-	`"x" * 300`, `1, 2, 3`, `[range(2000)] | length`, `range(6) | . * 2`, `"line" , "two"`, `null`, `[range(15)] | map(. + 1)`,
+	`"x" * 300`, `1, 2, 3`, `error("boom")`, `1, error("mid"), 2`, `[1] | .[0] | tostring | error`, `try error("caught") catch .`, `{} | .a.b | error("nope")`, `[range(2000)] | length`, `range(6) | . * 2`, `"line" , "two"`, `null`, `[range(15)] | map(. + 1)`,
 }
 
 func isBigLine(l string) bool {
